@@ -141,6 +141,18 @@ theorem layout_multibyte {bits : Nat} (h : multiByte bits) (o : Order) {buf : Li
   have := loadBytes_digit hw hl hj
   cases o <;> simpa [Order.alt] using this
 
+/-- The same down to the bit: bit `k` of pixel `i` is bit `k % 8` of the byte at
+`i*n + k/8` (`LittleEndianMsb0`) resp. `i*n + (n-1-k/8)` (`BigEndianLsb0`). -/
+theorem layout_multibyte_bit {bits : Nat} (h : multiByte bits) (o : Order) {buf : List Nat}
+    {i v : Nat} (hw : BytesOk buf) (hl : load bits o buf i = some v) {k : Nat} (hk : k < bits) :
+    ∃ b, buf[i * (bits / 8) + (match o with | .le => k / 8 | .be => bits / 8 - 1 - k / 8)]? = some b ∧
+      v.testBit k = b.testBit (k % 8) := by
+  rw [load_multi h] at hl
+  have hk' : k < 8 * (bits / 8) := by rcases h with rfl | rfl | rfl <;> omega
+  obtain ⟨b, hb, ht⟩ := loadBytes_testBit hw hl hk'
+  refine ⟨b, ?_, ht⟩
+  cases o <;> simpa [Order.alt] using hb
+
 /-- The bytes written by a multi-byte `store` are the base-256 digits of the value:
 `v % 256, v / 256 % 256, ...` (little endian; reversed for big endian). -/
 theorem to_le_bytes_spec (v : Nat) :
